@@ -96,6 +96,11 @@ TraceNext ==
             /\ Chk(up', "P", e, "C14_ServerUp", 0)
             /\ Chk(up' => P_ReadBack, "P", e, "C14_ReadBack", 0)
             /\ Chk(DoReadBack, "I", e, "ReadBack", 0)
+       [] e.a = "Internal" ->
+            /\ BindSrv(e)
+            /\ Chk(up', "P", e, "C14_ServerUp", 0)
+            /\ Chk(up' => P_Internal, "P", e, "C14_Internal", 0)
+            /\ Chk(DoInternal(e.args.h, e.args.i, e.args.pbOK, e.args.shape), "I", e, "Internal", 0)
        [] OTHER -> Fail("C", e, "unknown-line", 0) /\ UNCHANGED vars
 
 TraceSpec == TraceInit /\ [][TraceNext]_tvars
